@@ -21,7 +21,9 @@ RULE = ("(i) gated schedules of the real Runner threads with a gated Timer (expi
 TRUSTED = ["Lean 4.33 kernel", "axioms propext/Classical.choice/Quot.sound only", "harness/gate.py gate scheduler + harness/runnerio.py",
            "model Invoke/Model/RunnerIO.lean hand-written, tied by correspondence on every run",
            "threading.Timer semantics (modelled as armed/kill/finish/done/cancelled), SIGKILL delivery (real runs only)"]
-ASSUMPTIONS = ["'promptly' is proved as a step bound (main observes the exit at its next poll); wall-clock bounds are measured on "
+ASSUMPTIONS = ["'promptly' also needs the wait loop's pause between two polls to stay bounded however long the command has run; the code "
+               "documents input_sleep (10 ms), the check demands <= 0.25 s (clause [poll-interval])",
+               "'promptly' is proved as a step bound (main observes the exit at its next poll); wall-clock bounds are measured on "
                "real children with margins and are not theorems",
                "what SIGKILL reaches (grandchildren holding the pipes) is a runtime matter: modelled by the holdOpen flag, measured on real runs"]
 LEVEL_TEXT = ("Lean 4 proofs over EVERY schedule of the repaired runner: timeout_kills_and_raises (a kill issued before the wait loop saw "
@@ -301,6 +303,42 @@ def reuse_real_case(case):
     return None
 
 
+POLL_MAX = 0.25  # seconds; see ASSUMPTIONS
+
+
+def poll_interval_case(case):
+    """'promptly' needs the wait loop to keep looking: however long the command has been running, the pause between
+    two polls of the process stays bounded (the code documents `input_sleep`, 10 ms; we demand <= POLL_MAX).
+    A scripted process that ends after N polls; `time.sleep` of invoke.runners is replaced by a recorder."""
+    import types
+    import invoke.runners as R
+    from invoke import Context, Config
+    from fakerunner import Scripted
+
+    class Slow(Scripted):
+        input_sleep = 0.01  # Local's documented default
+        polls = 0
+
+        @property
+        def process_is_finished(self):
+            type(self).polls += 1
+            return type(self).polls > case["polls"]
+
+    Slow.polls = 0
+    sleeps = []
+    old = R.time
+    R.time = types.SimpleNamespace(sleep=lambda d: sleeps.append(d), time=old.time)
+    try:
+        kw = {"timeout": 600} if case.get("timeout") else {}
+        Slow(Context(Config()), out=[b"x"], exited=0).run("cmd", hide=True, in_stream=False, **kw)
+    finally:
+        R.time = old
+    if sleeps and max(sleeps) > POLL_MAX:
+        return "[poll-interval] after %d polls the wait loop pauses %.2fs between two looks at the process (bound %.2fs): a kill or an exit is noticed that late" % (
+            len(sleeps), max(sleeps), POLL_MAX)
+    return None
+
+
 def late_join_case(case):
     """asynchronous run with a timeout, joined only AFTER the timeout has long elapsed: the clock starts with the
     command, not with join() - the command must have been killed at its timeout (its later side effect never happens)"""
@@ -332,6 +370,12 @@ def replay(case):
     if "reuse_real" in case:
         try:
             why = common.with_timeout(reuse_real_case, 60, case)
+        except common.Hang:
+            why = "[hang] the run did not return"
+        return why is None, why or "ok"
+    if "poll_interval" in case:
+        try:
+            why = common.with_timeout(poll_interval_case, 60, case)
         except common.Hang:
             why = "[hang] the run did not return"
         return why is None, why or "ok"
@@ -388,8 +432,10 @@ def run(ctx):
         for cmd in ("exit 3", "true"):
             extra.append({"async": True, "cmd": cmd, "pty": pty})
         extra.append({"late_join": True, "pty": pty})
+        extra.append({"poll_interval": True, "polls": 400 if pty else 60, "timeout": pty})
         extra.append({"reuse_real": True, "pty": pty, "runs": [["true", 5, False], ["sleep 2", 0.3, True], ["echo fine", 5, False]]})
         extra.append({"reuse_real": True, "pty": pty, "runs": [["sleep 2", 0.3, True], ["sleep 2", 0.3, True], ["true", 5, False]]})
+        extra.append({"reuse_real": True, "pty": pty, "runs": [["sleep 2", 0.3, True], ["echo second", None, False], ["true", None, False]]})
     extra += []
     for pty in (False, True):
         for warn in (False, True):
@@ -400,7 +446,7 @@ def run(ctx):
     for c in extra:
         out.case(c, True)
         out.hist["extra:" + (c.get("src") and "source" or c.get("real") or ("reuse" if "reuse" in c else "reuse_real" if "reuse_real" in c
-                             else "late_join" if "late_join" in c else "async"))] += 1
+                             else "late_join" if "late_join" in c else "poll_interval" if "poll_interval" in c else "async"))] += 1
         try:
             ok, why = replay(c)
         except OSError as e:
